@@ -76,3 +76,30 @@ CHECKS.update({
 })
 
 NOT_YET = {}
+
+
+# ---- mechanisms added after the blind rounds 4 and 5 (DESIGN.md 11.2, 11.5) -------------------------------------------
+_LAWS = (" Beyond the model's string length: the laws PowerLaw / PadLaw / CompFormPadLaw of Profiles.tla (model-checked as invariants of "
+         "MC_Profiles on every string <= 3) are applied to the real code on inputs of up to 16 KiB (thorough: 64 KiB) whose unit is judged by TLC.")
+_HIST = (" History and schedules: the echo driver (every string through one profile / class and immediately afterwards through another, all "
+         "forms, judged by TLC) and a race run (fresh processes x 16 barrier-released threads against the sequential reference).")
+_GUARD = " Every replay is guarded: a behaviour on which the real code kills the process or does not return is confirmed alone and reported as a violation."
+for _id in ("C04", "C05", "C06", "C08", "C10", "C11", "C12"):
+    CHECKS[_id]["text"] += _LAWS + _HIST + _GUARD
+CHECKS["C07"]["text"] += (" Also: compare on padded respelled pairs (CompFormPadLaw), the per-code-point layer for the mapping rules that define the "
+                          "equivalence classes, borrowed operands passed as views of one buffer when one contains the other." + _HIST + _GUARD)
+CHECKS["C01"]["text"] += (_LAWS + " Deep sweep: 118 strings with runs of 6,144 / 16,384 equal characters next to contextual characters through every "
+                          "operation on a 192 KiB stack in a child process; the death of the child (stack overflow, abort) is a reported case." + _GUARD)
+CHECKS["C02"]["text"] += " CtxPadLaw / AllowsPadLaw of MC_Context are applied to the real code with up to 70,000 padding characters." + _GUARD
+CHECKS["C03"]["text"] += " CtxPadLaw / AllowsPadLaw of MC_Context are applied to the real code with up to 70,000 padding characters (offsets beyond 65,535)." + _GUARD
+CHECKS["C14"]["text"] += (" Order sweep: eleven call orders incl. one lookup per visit and code points sharing their low 8/16/20 bits asked back to back; "
+                          "lockstep sweep: fresh processes whose threads make the first lookups of every code point at the same time.")
+CHECKS["C15"]["text"] += (" Every generation is repeated over an existing longer output file (bytes must not differ), every category / value is also registered "
+                          "under a second table name, a parsed aggregator is emitted twice, and model property files are written in all five formats the build scripts read.")
+CHECKS["C16"]["text"] += (" Race driver: 124 (thorough 1,540) fresh processes x 16 barrier-released threads on 136 labels of different scripts / mapping paths / sizes "
+                          "(incl. 256..700-byte non-normalized ones), string classes included, every result compared with the sequential reference whose inputs TLC judges; "
+                          "echo driver; lockstep and alias orders in the order sweep; compare operands as views of one buffer." + _GUARD)
+CHECKS["C17"]["text"] += (" Synthetic registry files through the line parser: descriptions of 0..200,000 bytes (every length around 4096 and 8192), malformed rows with "
+                          "junk of every length 1..120 of 1- to 4-byte characters in both columns, errors must carry the physical line number.")
+CHECKS["C18"]["text"] += _GUARD
+CHECKS["C13"]["text"] += _GUARD
